@@ -101,6 +101,9 @@ fn step<T: BE>(m: &mut Tridiagonal<T>, op: &Value) -> Result<Res<T>, String> {
             "matvec" => { let v = vec_of::<T>(&op["v"], if T::CX { op.get("vi") } else { None }); Res::V(if own { m.clone() * v } else { &*m * &v }) }
             "resize" => { m.resize(getu(op, "n")); Res::None }
             "det" => Res::Det(m.det()),
+            // the same calls on a clone of the object
+            "clone_det" => Res::Det(m.clone().det()),
+            "clone_solve" => { let r = vec_of::<T>(&op["r"], if T::CX { op.get("ri") } else { None }); Res::X(m.clone().solve(&r)) }
             "solve" => { let r = vec_of::<T>(&op["r"], if T::CX { op.get("ri") } else { None }); Res::X(m.solve(&r)) }
             // all reads through the index operator
             "dense" => { let n = m.size(); let mut d = vec![(0i64, 0i64); n * n];
@@ -121,7 +124,10 @@ fn run_hist_from<T: BE>(case: &Value, out: &mut Out, k0: usize) {
     let mut m = match if k0 == 0 { construct::<T>(case, out) } else { guarded(|| tri_from::<T>(&case["tri"], gets(case, "ctor"))).ok() } { Some(m) => m, None => return };
     for (k, op) in case["ops"].as_array().unwrap().iter().enumerate() {
         let k = k + k0;
-        let name = gets(op, "op");
+        // a DIFFERENT object on the same thread, in the middle of the history: its own (stand-alone) events
+        if gets(op, "op") == "other" { let mut sub = op["case"].clone(); sub["cid"] = json!(cid); run_hist_from::<T>(&sub, out, 1000 * (k + 1)); continue; }
+        let name = match gets(op, "op") { "clone_solve" => "solve", "clone_det" => "det", s => s };
+        let exact = T::NAME == "rat" || case.get("exact").and_then(|v| v.as_bool()) == Some(true);   // floats: the generator vouches for exact arithmetic
         let pre = [jtri(&m, Part::Re), jtri(&m, Part::Im)];
         let r = step(&mut m, op);
         let post = if m.size() == 0 { [pre[0].clone(), pre[1].clone()] } else { [jtri(&m, Part::Re), jtri(&m, Part::Im)] };   // (a rebind that panicked leaves the placeholder)
@@ -135,16 +141,31 @@ fn run_hist_from<T: BE>(case: &Value, out: &mut Out, k0: usize) {
         if name == "det" || name == "solve" {
             let mut e = base(0); if let Some(o) = e.as_object_mut() { o.remove("post"); o.remove("part"); }
             let n = getu(&pre[0], "n");
+            if name == "solve" && op["r"].as_array().map(|a| a.len()).unwrap_or(n) != n {
+                // right-hand side of another size: the call must refuse, whatever the element type
+                e["r"] = op["r"].clone(); out.ev(e); continue;
+            }
             if T::CX { e["prei"] = pre[1].clone(); }
+            if exact && T::CX {
+                // real or Gaussian-integer data on which the complex float arithmetic is exact: judged over Gaussian rationals
+                if name == "det" { let (rq, rqi) = match (if let Res::Det(d) = &res { to_rat2(d) } else { None }) { Some((a, b)) => (jrat(a), jrat(b)), None => (json!([BAD, 1]), json!([BAD, 1])) };
+                    e["op"] = json!("det_cx"); e["rq"] = rq; e["rqi"] = rqi; }
+                else { let msg = r_msg.clone().unwrap_or_default();
+                    let conv: Option<Vec<(Rat, Rat)>> = if let Res::X(x) = &res { x.vec.iter().map(to_rat2).collect() } else { None };
+                    let (xs, xsi, l) = match conv.and_then(|v| cx_common_den(&v, LIM)) { Some((a, b, l)) => (Value::from(a), Value::from(b), json!(l)), None => (Value::from(vec![BAD; n]), Value::from(vec![BAD; n]), json!(BAD)) };
+                    e["op"] = json!("solve_cx"); e["r"] = op["r"].clone(); e["ri"] = op.get("ri").cloned().unwrap_or_else(|| zeros_like(&op["r"]));
+                    e["zero"] = json!(panic && mentions_zero(&msg)); e["msg"] = json!(msg); e["xs"] = xs; e["xsi"] = xsi; e["L"] = l; }
+                out.ev(e); continue;
+            }
             if name == "det" {
-                if T::NAME == "rat" { e["rq"] = match &res { Res::Det(d) => to_rat(d).map(|p| jrat(p.0)).unwrap_or(json!([BAD, 1])), _ => json!([BAD, 1]) }; }
+                if exact { e["rq"] = match &res { Res::Det(d) => to_rat(d).map(|p| jrat(p.0)).unwrap_or(json!([BAD, 1])), _ => json!([BAD, 1]) }; }
                 else {
                     let mut tj = pre[0].clone(); for f in ["sub", "main", "sup"] { let fi = format!("{}i", f); tj[fi.as_str()] = pre[1][f].clone(); }
                     e["op"] = json!("det_units"); e["cxf"] = json!(T::CX); e["n"] = json!(n);
                     e["units"] = json!(det_units_of(&dense_case(&tj), if let Res::Det(d) = &res { Some(d.to_c()) } else { None }));
                 }
                 out.ev(e);
-            } else if T::NAME == "rat" {
+            } else if exact {
                 let msg = match &r_msg { Some(s) => s.clone(), None => String::new() };
                 e["r"] = op["r"].clone(); e["msg"] = json!(msg); e["zero"] = json!(panic && mentions_zero(&msg));
                 let conv: Option<Vec<(Rat, bool)>> = if let Res::X(x) = &res { x.vec.iter().map(to_rat).collect() } else { None };
@@ -433,7 +454,12 @@ pub fn gen(tier: &str, seed: u64, out: &mut Out) {
     for n in 1..=12usize {
         // (a) histories: every operation, every element type, all three ways of building the matrix
         for rep in 0..(if quick { 3 } else { 12 }) { for (t, ty) in TYS.iter().enumerate() {
-            let ops = hist_ops(&mut rng, n, ty, if quick { 10 } else { 30 });
+            let mut ops = hist_ops(&mut rng, n, ty, if quick { 10 } else { 30 });
+            // operands of another size (same total only by accident): sum, difference and product must refuse
+            for n2 in [n + 1, n.saturating_sub(1)] { if n2 == 0 { continue; } let cx = *ty == "cx";
+                ops.push(json!({"op": if (rep + n2) % 2 == 0 { "add" } else { "sub" }, "b": rand_tri(&mut rng, n2, 1, 9, cx)}));
+                let mut mv = json!({"op": "matvec", "form": if rep % 2 == 0 { "own" } else { "ref" }, "v": rv(&mut rng, n2, -5, 5)}); if cx { mv["vi"] = Value::from(rv(&mut rng, n2, -5, 5)); } ops.push(mv);
+                ops.push(json!({"op": "diags"})); }
             push(out, json!({"kind": "hist", "ty": ty, "ctor": ctors[(rep + t + n) % 3], "tri": rand_tri(&mut rng, n, -9, 9, *ty == "cx"), "ops": ops}));
         } }
         // (b) exact solve-or-refuse on general integer data (Rat) incl. zero sub/super-diagonal entries
@@ -548,6 +574,8 @@ pub fn gen(tier: &str, seed: u64, out: &mut Out) {
         } }
     }
     { let mut sink = |c: Value| push(out, c); exact_and_sweep(&mut rng, quick, seed, &mut sink); }
+    // (k) what a refused call leaves behind: the same object, a clone and another object right after it
+    { let mut sink = |c: Value| push(out, c); poison_cases(&mut rng, quick, &mut sink); }
     // (g) the product (and conversion) for sizes beyond the number of CPUs, partly with the process restricted to 1..3 CPUs
     for (t, n) in [17usize, 24, 33, 40].iter().enumerate() { for (q, ty) in TYS.iter().enumerate() {
         let cx = *ty == "cx"; let mv = |rng: &mut StdRng, form: &str| { let mut o = json!({"op": "matvec", "form": form, "v": rv(rng, *n, -5, 5)}); if cx { o["vi"] = Value::from(rv(rng, *n, -5, 5)); } o };
@@ -825,5 +853,65 @@ fn exact_and_sweep(rng: &mut StdRng, quick: bool, seed: u64, push: &mut dyn FnMu
         }
         // (finer grid in the subnormal range and next to the overflow threshold)
         k += if k < -1016 || k >= 996 { (step as i64).min(2) } else { step as i64 };
+    }
+}
+
+// ------------------------------------------------------------------ refused calls and what follows
+/// pivots of the elimination on an exact_tri system (integers by construction)
+fn int_pivots(sub: &[i64], main: &[i64], sup: &[i64]) -> Option<Vec<i64>> {
+    let mut b = vec![main[0]];
+    for j in 1..main.len() { let p = *b.last().unwrap(); if p == 0 || (sub[j - 1] * sup[j - 1]) % p != 0 { return None; } b.push(main[j] - sub[j - 1] * sup[j - 1] / p); }
+    if b.iter().any(|x| *x == 0) { None } else { Some(b) }
+}
+/// Sequences around refused calls (every element type; floats on data where the elimination is exact, so the model decides
+/// answer-or-refusal and the exact solution).  The object starts with a zero pivot at step s (first, middle, LAST; n = 1:
+/// the zero entry).  A refused solve, a right-hand side of another size and out-of-range accessors are followed at once by the
+/// same solve again (must refuse again), by det / observers, by the calls on a clone and on other objects (regular and
+/// singular), by mutators that keep the pivot zero (must still refuse) and by the assignment that repairs it (must now
+/// return the exact solution, repeatedly), and back.
+fn poison_cases(rng: &mut StdRng, quick: bool, push: &mut dyn FnMut(Value)) {
+    let ctors = ["vecs", "vectors", "index"]; let mut t = 0usize;
+    for n in 1..=(if quick { 8usize } else { 12 }) {
+        let mut steps = vec![0usize, n / 2, n - 1]; steps.dedup();
+        for &s0 in &steps { for _rep in 0..(if quick { 1 } else { 3 }) { t += 1;
+            let tys: Vec<&str> = if quick && s0 + 1 != n { vec![TYS[t % 3]] } else { TYS.to_vec() };
+            let mut made = None;
+            for tr in 0..200 {
+                let (sub, main, sup, r) = exact_tri(rng, n, None, if tr < 80 { 1 } else { 0 }, if tr < 120 { 3 } else { 1 });
+                let beta = match int_pivots(&sub, &main, &sup) { Some(b) => b, None => continue };
+                let mut sing = main.clone(); sing[s0] -= beta[s0];
+                let dbl = |v: &Vec<i64>| -> Vec<i64> { v.iter().map(|x| 2 * x).collect() };
+                if !(fits_tlc(&sub, &main, &sup, &r) && fits_tlc(&dbl(&sub), &dbl(&main), &dbl(&sup), &r) && fits_tlc(&sub, &sing, &sup, &r) && fits_tlc(&dbl(&sub), &dbl(&sing), &dbl(&sup), &r)) { continue; }
+                made = Some((sub, main, sup, r, sing)); break;
+            }
+            let (sub, main, sup, r, sing) = match made { Some(x) => x, None => continue };
+            for ty in tys { let cx = ty == "cx";
+                let solve = |name: &str, len: usize| -> Value { let mut rr = r.clone(); rr.resize(len, 1); json!({"op": name, "r": rr}) };
+                let set = |i: usize, x: i64| -> Value { if cx { json!({"op": "set", "i": i, "j": i, "x": x, "xi": 0}) } else { json!({"op": "set", "i": i, "j": i, "x": x}) } };
+                let other = |rng: &mut StdRng, zero: Option<usize>, n2: usize| -> Value {
+                    for _ in 0..60 { let (a, b, c, r2) = exact_tri(rng, n2, zero, 1, 2);
+                        if fits_tlc(&a, &b, &c, &r2) { let sv = json!({"op": "solve", "r": r2});
+                            return json!({"op": "other", "case": {"kind": "hist", "exact": true, "ty": ty, "ctor": "vecs", "tri": tri_json(&a, &b, &c), "ops": [sv.clone(), sv.clone(), {"op": "det"}, sv]}}); } }
+                    json!({"op": "size"}) };
+                let mut ops = vec![];
+                ops.extend([solve("solve", n), solve("solve", n), json!({"op": "det"}), solve("clone_solve", n), json!({"op": "clone_det"}), json!({"op": "diags"}), json!({"op": "size"}), json!({"op": "dense"}), solve("solve", n)]);
+                ops.extend([solve("solve", n + 1), solve("solve", n)]);
+                if n > 1 { ops.extend([solve("solve", n - 1), solve("solve", n)]); }
+                ops.extend([json!({"op": "get", "i": n, "j": n}), set(n, 7), solve("solve", n), json!({"op": "det"})]);
+                let n2 = rng.gen_range(1..=5usize);
+                ops.push(other(rng, None, n2)); ops.push(solve("solve", n));
+                ops.push(other(rng, Some(n2 - 1), n2)); ops.push(solve("solve", n));
+                ops.push(other(rng, Some(0), n2)); ops.push(solve("solve", n));
+                // mutators that keep the pivot zero
+                ops.extend([set(s0, sing[s0]), solve("solve", n), solve("solve", n), json!({"op": "mul_assign", "s": 2}), solve("solve", n), solve("solve", n), json!({"op": "det"})]);
+                // repaired (the object is now 2 T): exact solution, again and again
+                ops.extend([set(s0, 2 * main[s0]), solve("solve", n), solve("solve", n), solve("clone_solve", n), json!({"op": "det"}), solve("solve", n + 1), solve("solve", n), json!({"op": "dense"})]);
+                // broken again, negated (still singular), repaired
+                ops.extend([set(s0, 2 * sing[s0]), solve("solve", n), solve("solve", n), json!({"op": "det"}), json!({"op": "rebind_neg"}), solve("solve", n), solve("clone_solve", n), solve("solve", n)]);
+                ops.push(other(rng, Some(n2 - 1), n2));
+                ops.extend([set(s0, -2 * main[s0]), solve("solve", n), json!({"op": "det"}), solve("solve", n), json!({"op": "diags"})]);
+                push(json!({"kind": "seq", "fam": "poison", "exact": true, "step": s0, "ty": ty, "ctor": ctors[t % 3], "tri": tri_json(&sub, &sing, &sup), "ops": ops}));
+            }
+        } }
     }
 }
